@@ -493,6 +493,7 @@ def _lin_check(ctx, gc):
 CHECKS["C05"] = Spec(
     prop_file="C05.v",
     weights=None,
+    skeleton="C05",
     witnesses=["F9-lost-wakeup"],
     tools=["witness", "concdrive"],
     rule="see schedule_rule",
@@ -509,6 +510,7 @@ CHECKS["C06"] = Spec(
 CHECKS["C12"] = Spec(
     prop_file="C12.v",
     weights=None,
+    skeleton="C12",
     witnesses=["F9-lost-wakeup"],
     tools=["witness", "concdrive"],
     rule="see schedule_rule",
@@ -670,6 +672,7 @@ def _close_check(ctx):
 CHECKS["C17"] = Spec(
     prop_file="C17.v",
     weights=None,
+    skeleton="C17",
     witnesses=["F17-close-vs-relocation"],
     tools=["witness", "closedrive"],
     rule="see scenario_rule",
@@ -815,6 +818,7 @@ CHECKS["C15"] = Spec(
 CHECKS["C14"] = Spec(
     prop_file="C14.v",
     weights=None,
+    skeleton="C14",
     witnesses=["F7-filecache-untracked-handle", "F18-filecache-shrink-after-zero"],
     tools=["witness", "fcdrive"],
     rule="operation sequences on the real store/filecache with real files: Open of 4 names, Close of a held reference (protocol-obeying by construction), Remove, Clear, "
@@ -891,6 +895,32 @@ def project(term, keep):
         else:
             lines[i] = l if closing else l + "]"
     return "\n".join(lines)
+
+
+SKEL_GOALS = {
+    "C12": "wf_C12 skel_Store_Flush skel_Store_flushTick",
+    "C17": "wf_C17 skel_Store_Close skel_Store_run skel_primaryGC_run skel_primaryGC_close skel_MultihashPrimary_Close skel_Index_garbageCollector skel_Index_Close",
+    "C05": "wf_C05 skel_Index_Put skel_Index_update skel_Index_remove skel_Index_Get skel_Index_Flush skel_MultihashPrimary_Flush skel_Store_commit",
+    "C14": "wf_C14 [skel_FileCache_Open; skel_FileCache_Close; skel_FileCache_Remove; skel_FileCache_Clear; skel_FileCache_SetCacheSize; skel_FileCache_Len; skel_FileCache_Cap]",
+}
+
+def skeleton_obligation(which):
+    """Regenerate the synchronisation skeletons from /repo and discharge the predicate the model of property [which] relies on.
+    Returns (ok, text)."""
+    C.go_build(["skel"])
+    gen = os.path.join(C.BUILD, "gen"); os.makedirs(gen, exist_ok=True)
+    with C.Lock("skelgen"):
+        p = C.sh([os.path.join(C.BIN, "skel"), "sync", C.REPO, os.path.join(gen, "SyncSkeletonGen.v")], check=False)
+        if p.returncode != 0:
+            raise C.CheckError("skel sync failed: " + p.stdout[-1500:])
+        pc = C.sh(["timeout", "300", "coqc", "-Q", os.path.join(C.COQ, "theories"), "STH", "-Q", gen, "STHGen", "SyncSkeletonGen.v"], cwd=gen, check=False)
+        if pc.returncode != 0:
+            return False, "generated skeleton does not compile: " + pc.stdout[-800:]
+        goal = os.path.join(gen, "SkelGoal_%s.v" % which)
+        open(goal, "w").write("From Coq Require Import List String.\nFrom STH Require Import SyncWf.\nFrom STHGen Require Import SyncSkeletonGen.\nImport ListNotations.\n"
+                               "Lemma skeleton_ok_%s : %s = true.\nProof. vm_compute. reflexivity. Qed.\n" % (which, SKEL_GOALS[which]))
+        pg = C.sh(["timeout", "300", "coqc", "-Q", os.path.join(C.COQ, "theories"), "STH", "-Q", gen, "STHGen", goal], cwd=gen, check=False)
+    return pg.returncode == 0, ("skeleton_ok_%s : %s = true" % (which, SKEL_GOALS[which])) + ("" if pg.returncode == 0 else "  -- FAILED: " + pg.stdout[-400:])
 
 
 def load_known():
@@ -1033,6 +1063,14 @@ def run_check(prop, tier, seed, replay, t0):
             discharged += 1
         else:
             broken_obligations.append("theorem %s depends on: %s" % (name, a[:400]))
+    if getattr(spec, "skeleton", None):
+        sk_ok, sk_text = skeleton_obligation(spec.skeleton)
+        obligations += 1
+        cov["regenerated_skeleton_obligation"] = sk_text
+        if sk_ok:
+            discharged += 1
+        else:
+            broken_obligations.append("regenerated obligation (synchronisation skeleton extracted from /repo by harness/cmd/skel): " + sk_text)
     cov.update(obligations=obligations, discharged=discharged,
                checker_cmd=checker + " && coqc -Q theories STH -Q properties STHProps properties/" + spec.prop_file,
                print_assumptions=assum, grep_gate="clean" if not gate else gate)
